@@ -55,9 +55,9 @@ CLAIMED.update({
         "technique": "Coq proof: inductive invariant over all evaluators (structural walker) and over host-call histories; snapshot correspondence + invariant oracle after every call",
     },
     "C17": {
-        "text": "Coq theorems (closed under the global context): a 2-run simulation -- for any session and any two flag configurations (set by field at any point, or by TRACE/NOTRACE), every call yields the same outcome, state, caret, error text, cursor-read count and the same output after dropping Trace/Warning records, and the states stay equal up to the flags (C17_transparent, C17_history); TRACE/NOTRACE change only the flag. The content of trace/warning records is tied by the correspondence (they are compared with the model's) and a trace-vs-path oracle.",
+        "text": "Coq theorems (closed under the global context): a 2-run simulation -- for any session and any two flag configurations (set by field at any point, or by TRACE/NOTRACE), every call yields the same outcome, state, caret, error text, cursor-read count and the same output after dropping Trace/Warning records, and the states stay equal up to the flags (C17_transparent, C17_history); TRACE/NOTRACE change only the flag. The trace is the path: with tracing on, a host call that executes a statement of numbered line n pushes Trace n as its FIRST record and every other Trace record of the call names n, so the call's trace collapses to [n]; a call on the immediate line pushes no Trace record (C17_trace_first, C17_trace_is_path, C17_no_trace_on_immediate; Proofs/TraceProofs.v). The content of warning records is tied by the correspondence (they are compared with the model's) and by the oracle.",
         "design_ref": "DESIGN.md 6 C17",
-        "note": NOTE + "C17_trace_is_path and C17_warn_exact are validated (correspondence + oracle), not proved.",
+        "note": NOTE + "C17_warn_exact (a warning exactly on reads of never-assigned variables / non-existent arrays) is validated (correspondence + oracle), not proved.",
         "technique": "Coq proof: relational (2-safety) simulation over all evaluators and host-call histories; four-configuration differential oracle + correspondence",
     },
 })
